@@ -3,8 +3,8 @@ import json, os, subprocess, sys, time, hashlib, re
 from concurrent.futures import ThreadPoolExecutor
 
 VERIF = os.path.dirname(os.path.dirname(os.path.abspath(__file__)))
-EVID = os.path.join(VERIF, 'evidence')
-REPLAYS = os.path.join(VERIF, 'replays')
+EVID = os.environ.get('VERIF_EVIDENCE_DIR') or os.path.join(VERIF, 'evidence')      # overridden when a check is
+REPLAYS = os.environ.get('VERIF_REPLAY_DIR') or os.path.join(VERIF, 'replays')       # run against a scratch worktree
 KNOWN = os.path.join(VERIF, 'known-findings.jsonl')
 NCPU = int(os.environ.get('VERIF_JOBS', '16'))
 
